@@ -6,8 +6,9 @@
    unwritten), `Fault Hang` (fuel S (length s) exhausted), nor any `Abort`.
    The result of the model IS the list of units held, so size() = number of units holds by
    construction; the terminator cell is written by allocate() and observed by the harness.     *)
-From Coq Require Import NArith List Bool.
+From Coq Require Import NArith ZArith List Bool.
 From ST Require Import Base.Outcome Base.Units Utf.Spec Utf.Tokens Utf.Model Utf.ProofsC01 Utf.ProofsC03 Utf.ApiCoverage.
+From ST Require Utf.LeafBridge Gen.Leaf.
 Import ListNotations.
 Local Open Scope N_scope.
 
@@ -92,3 +93,13 @@ Proof. exact huge_is_asserted. Qed.
 Theorem every_route_is_modelled : ST.Utf.ApiCoverage.routes_covered_b = true.
 Proof. exact ST.Utf.ApiCoverage.routes_covered. Qed.
 Print Assumptions every_route_is_modelled.
+
+(* ---- tie by translation: the leaf functions below are translated from the clang AST of the CURRENT headers into
+   Gen/Leaf.v on every run (tools/leaf_translate.py: C++ integer semantics written out over Z); the hand-written
+   model functions used by every theorem above compute the same values, so an edit to one of these functions in the
+   headers breaks this obligation whatever the test generators do ---- *)
+Theorem measures_match_source : forall ch, ch < 2 ^ 32 ->
+  ST.Gen.Leaf.src_utf8_measure (Z.of_N ch) = Z.of_nat (utf8_measure ch) /\
+  ST.Gen.Leaf.src_utf16_measure (Z.of_N ch) = Z.of_nat (utf16_measure ch).
+Proof. exact (fun ch H => conj (ST.Utf.LeafBridge.utf8_measure_matches_source ch H) (ST.Utf.LeafBridge.utf16_measure_matches_source ch H)). Qed.
+Print Assumptions measures_match_source.
